@@ -142,35 +142,52 @@ def normDec (neg : Bool) (ds : List Nat) (pt : Int) : Dec :=
   let l' := stripTrailingZeros l
   if l' = [] then ⟨neg, [0], 1⟩ else ⟨neg, l', pt'⟩
 
+/-- `[ minus ]` -/
+def parseSign : Str → Bool × Str
+  | 45 :: r => (true, r)
+  | s => (false, s)
+
+/-- `[ frac ]`, `frac = decimal-point 1*DIGIT`; outer `none` = malformed -/
+def parseFrac : Str → Option (Option (List Nat) × Str)
+  | 46 :: r =>
+    match spanDigits r with
+    | ([], _) => none
+    | (fp, r') => some (some fp, r')
+  | s => some (none, s)
+
+/-- `[ exp ]`, `exp = e [ minus / plus ] 1*DIGIT`; outer `none` = malformed -/
+def parseExp : Str → Option (Option Int × Str)
+  | [] => some (none, [])
+  | c :: r =>
+    if c = 101 ∨ c = 69 then
+      let (sg, r1) : Bool × Str := match r with
+        | 43 :: r' => (false, r')
+        | 45 :: r' => (true, r')
+        | _ => (false, r)
+      match spanDigits r1 with
+      | ([], _) => none
+      | (ed, r2) => some (some (if sg then -(digitsVal ed : Int) else (digitsVal ed : Int)), r2)
+    else some (none, c :: r)
+
 /-- `number = [ minus ] int [ frac ] [ exp ]`, `int = zero / ( digit1-9 *DIGIT )`.
 An integer literal denotes an integer, anything else the decimal number in normal form. -/
 def parseNum (s : Str) : Option (JValue × Str) :=
-  let (neg, s1) := match s with
-    | 45 :: r => (true, r)
-    | _ => (false, s)
-  let (ip, s2) := spanDigits s1
-  if ip = [] then none
-  else if ip.length > 1 ∧ ip.head? = some 0 then none      -- leading zero
-  else
-    let (fp, s3, hasFrac, okF) := match s2 with
-      | 46 :: r => let (fp, r') := spanDigits r; (fp, r', true, !fp.isEmpty)
-      | _ => ([], s2, false, true)
-    if !okF then none else
-    let (ex, s4, hasExp, okE) := match s3 with
-      | c :: r =>
-        if c = 101 ∨ c = 69 then
-          let (sg, r1) := match r with
-            | 43 :: r' => (false, r')
-            | 45 :: r' => (true, r')
-            | _ => (false, r)
-          let (ed, r2) := spanDigits r1
-          ((if sg then -(digitsVal ed : Int) else (digitsVal ed : Int)), r2, true, !ed.isEmpty)
-        else (0, s3, false, true)
-      | [] => (0, s3, false, true)
-    if !okE then none
-    else if !hasFrac ∧ !hasExp then
-      some (.int (if neg then -(digitsVal ip : Int) else (digitsVal ip : Int)), s4)
-    else some (.dbl (normDec neg (ip ++ fp) ((ip.length : Int) + ex)), s4)
+  match parseSign s with
+  | (neg, s1) =>
+    match spanDigits s1 with
+    | (ip, s2) =>
+      if ip = [] then none
+      else if 1 < ip.length ∧ ip.head? = some 0 then none      -- leading zero
+      else
+        match parseFrac s2 with
+        | none => none
+        | some (fp, s3) =>
+          match parseExp s3 with
+          | none => none
+          | some (ex, s4) =>
+            match fp, ex with
+            | none, none => some (.int (if neg then -(digitsVal ip : Int) else (digitsVal ip : Int)), s4)
+            | _, _ => some (.dbl (normDec neg (ip ++ fp.getD []) ((ip.length : Int) + ex.getD 0)), s4)
 
 /-! ## §2–§5 values -/
 
@@ -275,5 +292,20 @@ def dedupe {α} (p : DupPolicy) (m : List (Str × α)) : Option (List (Str × α
   | .useFirst => some (dedupeFirst [] m)
   | .useLast => some (dedupeLast [] m)
   | .reject => if hasDupKeys m then none else some m
+
+mutual
+/-- F&O 3.1 §17.5.1 fn:parse-json on a JSON value whose strings are XML strings: the `duplicates`
+policy applied in every object, inner objects first. -/
+def dedupeAll (p : DupPolicy) : JValue → Option JValue
+  | .arr l => (dedupeAllL p l).map JValue.arr
+  | .obj m => (dedupeAllM p m).bind fun m' => (dedupe p m').map JValue.obj
+  | v => some v
+def dedupeAllL (p : DupPolicy) : List JValue → Option (List JValue)
+  | [] => some []
+  | v :: t => (dedupeAll p v).bind fun v' => (dedupeAllL p t).map (v' :: ·)
+def dedupeAllM (p : DupPolicy) : List (Str × JValue) → Option (List (Str × JValue))
+  | [] => some []
+  | (k, v) :: t => (dedupeAll p v).bind fun v' => (dedupeAllM p t).map ((k, v') :: ·)
+end
 
 end EPV.Json
